@@ -745,7 +745,12 @@ static Pres draw_pres(Rng& r, bool force_stream) {
 void run_case(uint64_t seed, uint64_t index, const ViolationSink& sink, std::vector<EvalSpec>* dry) {
   Rng r(mix(seed, index));
   auto& reg = registry();
-  const TypeOps& t = reg[r.below(reg.size())];
+  // the field-numbered structs carry the protobuf differential: give them a fixed share of the cases
+  size_t ti = r.below(reg.size());
+  uint64_t share = r.below(100);
+  if (share < 8 && type_index("CompatObj") >= 0) ti = (size_t)type_index("CompatObj");
+  else if (share < 11 && type_index("CompatSub") >= 0) ti = (size_t)type_index("CompatSub");
+  const TypeOps& t = reg[ti];
   static const int bq[] = {0, 1, 1, 2, 2, 3, 4, 4, 6, 8, 12, 16, 24, 32, 48, 64};
   int budget = bq[r.below(env().thorough ? 16 : 12)];
   uint64_t vseed = r.next();
